@@ -121,6 +121,38 @@ def run_bounded(prop, tier, seed):
     return res
 
 
+# ------------------------------------------------------------------------ probe layer ----
+def run_probes(prop):
+    """Concrete probes: the stand-alone scenario scripts that accompany the contracts of this
+    property (the same scripts that replay a refuted obligation) are run against the real code on
+    EVERY run.  They are bounded run-time checks with an oracle written from the property statement
+    (labelled `probe`, never counted as proved); they decide changes that move a function out of the
+    verifier's reach.  -> list of {name, path, reproduced, output}"""
+    modname = "contracts.%s" % prop.lower()
+    try:
+        mod = importlib.import_module(modname)
+    except ModuleNotFoundError:
+        return []
+    seen, jobs = set(), []
+    for c in mod.contracts():
+        text = getattr(c, "static_replay", None)
+        if not text:
+            continue
+        h = hashlib.sha256(text.encode()).hexdigest()
+        if h in seen:
+            continue
+        seen.add(h)
+        path = write_replay(prop, "probe|" + h, text)
+        jobs.append((c.name, path, getattr(c, "static_witness", None) or ""))
+    out = []
+    if not jobs:
+        return out
+    with cf.ThreadPoolExecutor(max_workers=min(8, len(jobs))) as ex:
+        for (name, path, wit), (ok, txt) in zip(jobs, ex.map(lambda j: run_replay(j[1], timeout=300), jobs)):
+            out.append({"name": name, "path": path, "reproduced": ok, "output": txt, "witness": wit})
+    return out
+
+
 # --------------------------------------------------------------------------- replays ----
 def write_replay(prop, key, text):
     d = os.path.join(HERE, "replays", prop)
@@ -173,6 +205,7 @@ def decide(prop, tier, seed):
     known_hits = []
     proof = run_proof(prop, tier)
     bounded = run_bounded(prop, tier, seed)
+    probes = run_probes(prop)
     checker_error = []
     ev_cov = {}
     # ---- bounded results first (their replays also serve refuted obligations) ----
@@ -239,6 +272,23 @@ def decide(prop, tier, seed):
         tail = "" if ok else " no-failing-input-found"
         lines.append("VIOLATION property=%s replay=%s%s" % (prop, path, tail))
         lines.append("  clause=%s witness=%s" % (v["clause"], v["witness"][:300]))
+    probe_viol = []
+    for pr in probes:
+        if pr["reproduced"] is True:
+            first = [l.strip() for l in pr["output"].splitlines() if l.strip() and not l.startswith("REPRODUCED")][:1]
+            wit = (first[0] if first else pr["witness"])[:300]
+            e = match_known(known, prop, "probe", "probe/" + pr["name"], wit)
+            if e is not None:
+                if e["id"] not in seen_known:
+                    seen_known.add(e["id"])
+                    lines.append("KNOWN-FINDING: property=%s %s [%s; probe: %s]" % (prop, (e["what"] or "")[:240], e["id"], pr["name"]))
+                continue
+            probe_viol.append(pr)
+            violations += 1
+            lines.append("VIOLATION property=%s replay=%s" % (prop, pr["path"]))
+            lines.append("  clause=probe/%s witness=%s" % (pr["name"], wit))
+        elif pr["reproduced"] is None:
+            checker_error.append("probe %s did not run to completion: %s" % (pr["name"], pr["output"][-600:]))
     for (v, rep) in refuted_new:
         reproduced = False
         path = None
@@ -262,6 +312,7 @@ def decide(prop, tier, seed):
         "refuted_known": [{"id": e["id"], "obligation": v["name"]} for (e, v, r) in refuted_known],
         "known_hits": sorted(seen_known), "functions": functions, "backends": backends,
         "solver_time_s": round(solver_time, 3), "checker_error": checker_error, "wall_s": round(time.time() - t0, 3),
+        "probes": [{"name": p_["name"], "reproduced": p_["reproduced"]} for p_ in probes],
     }
 
 
